@@ -88,6 +88,7 @@ class Prop:
     MAX_WORKERS = NCPU
     COQ_SHARD = 400
     CASES_PER_WORKER = 20
+    DRIFT_FACTOR = 2            # quick tier generates this many times the cases when an anchored file drifted
     SHRINK_BUDGET_S = 150      # wall-clock budget for shrinking per run (0 disables shrinking)
 
     # -- to be provided by the property module ------------------------------------------------
@@ -341,6 +342,38 @@ def coq_correspondence(prop: Prop, terms: list[str]):
 
 
 # ----------------------------------------------------------------------------------------------
+def anchor_files(pid):
+    for line in open(os.path.join(VERIF, "properties.jsonl")):
+        d = json.loads(line)
+        if d["id"] == pid:
+            return [f for f in d.get("anchors", {}).get("files", []) if f.endswith(".py")]
+    return []
+
+
+def file_digest(path):
+    """Digest of the normalised AST (no positions, no docstring/comment differences in layout)."""
+    import ast
+
+    try:
+        tree = ast.parse(open(path, encoding="utf-8").read())
+    except (OSError, SyntaxError) as e:
+        return f"unreadable:{type(e).__name__}"
+    return hashlib.sha1(ast.dump(tree, annotate_fields=False, include_attributes=False).encode()).hexdigest()
+
+
+def anchor_drift(pid):
+    """Files anchored by the property whose AST differs from the digest recorded in anchors.json
+    (recorded on the tree the model was last validated against).  Drift is never a verdict: it only makes
+    the quick tier explore more cases (DESIGN.md §1)."""
+    fn = os.path.join(VERIF, "anchors.json")
+    rec = json.load(open(fn)).get(pid, {}) if os.path.exists(fn) else {}
+    out = []
+    for f in anchor_files(pid):
+        if rec.get(f) != file_digest(os.path.join(REPO, f)):
+            out.append(f)
+    return out
+
+
 def load_known(pid):
     known, fixed = [], []
     for fn in [os.path.join(VERIF, "KNOWN_FINDINGS.txt")] + sorted(glob.glob(os.path.join(VERIF, "known", "*.txt"))):
@@ -441,6 +474,11 @@ def run_check(pid: str, tier: str, seed: int, replay: str | None = None) -> int:
     # 2. cases
     corpus = load_corpus(pid)
     gen = list(prop.gen(rng, tier))
+    drift = anchor_drift(pid)
+    if drift and tier == "quick" and prop.DRIFT_FACTOR > 1:
+        # the anchored source moved since the model was last validated against it: explore more
+        for k in range(1, prop.DRIFT_FACTOR):
+            gen.extend(prop.gen(random.Random(f"{pid}:{seed}:drift{k}"), tier))
     cases = corpus + gen
     obs = run_impl(prop, cases)
 
@@ -567,7 +605,7 @@ def run_check(pid: str, tier: str, seed: int, replay: str | None = None) -> int:
         "correspondence_cases": len(terms), "correspondence_mismatches": len(mism),
         "outside_model_domain": skipped, "oracle_failures": len(failures),
         "known_findings_hit": sorted(known_hit), "extended_search_cases": ext_eval,
-        "input_distribution": dist, "repo": REPO,
+        "input_distribution": dist, "repo": REPO, "anchor_drift": drift,
         "programs": len(cases), "disagreements_checked": len(mism) + len(failures),
     }
     if chk:
